@@ -10,7 +10,7 @@ from ..core import Disc, Subcheck, exc_detail, exc_key
 
 PROPERTY_ID = 'C08'
 LEVEL = 'exploration'
-RULE = ('histories on one established DBusClientConnection (in-memory transport, virtual clock): call (with/without '
+RULE = ('chain: a reply callback issues a further call that is answered while write() is on the stack (1-2 levels), the reply to another pending call in the same read or the next, reply sizes 0/3/40/200: every call completes once with its own value. histories on one established DBusClientConnection (in-memory transport, virtual clock): call (with/without '
         'deadline, return signature unchecked / matching / mismatching / empty, reply expected or not), reply and error '
         'reply addressed to a pending, a completed or a never-issued serial (bodies from the C01 space, each carrying a '
         'unique token), duplicate of the last reply, clock advance landing before / at / after deadlines, replies '
@@ -609,6 +609,81 @@ def run_fd_replies(case):
     return out
 
 
+def enum_chain(tier):
+    """A reply callback that calls on: the callback of call A issues call C to a peer in the same process, whose reply is
+    delivered while transport.write() is still on the stack - that is, while the reply to A is still being handled and
+    (when the replies to A and B came in one read) the reply to B still waits in the receive buffer.  Reply sizes differ."""
+    sizes = (0, 3, 40, 200)
+    for la in sizes:
+        for lb in sizes:
+            for lc in (0, 40):
+                for glued in (True, False):
+                    for depth in (1, 2):
+                        yield {'la': la, 'lb': lb, 'lc': lc, 'glued': glued, 'depth': depth}
+
+
+def run_chain(case):
+    try:
+        rig = N.ClientRig(unix=False)
+    except N.RigFailure as e:
+        return [Disc('chain.establish-failed', str(e))]
+    out = []
+    try:
+        rig.sent_messages()
+        results = {'A': [], 'B': [], 'C1': [], 'C2': []}
+
+        def text(tag, n):
+            return (tag + ':' + 'x' * n)
+
+        def call_on(level):
+            # issued from inside a reply callback; answered before write() returns
+            def answer_at_once(data):
+                rig.transport.on_write = None
+                m = R.decode_message(data)
+                N.deliver(rig.conn, R.encode_variant(level, 2, 8000 + level, {5: m['serial']}, 's',
+                                                     [text('C%d' % level, case['lc'])]))
+            rig.transport.on_write = answer_at_once
+            try:
+                d = rig.conn.callRemote('/o', 'Next', interface='a.b', destination='c.d')
+            finally:
+                rig.transport.on_write = None
+            d.addBoth(results['C%d' % level].append)
+            if level < case['depth']:
+                d.addCallback(lambda _: call_on(level + 1))
+
+        da = rig.conn.callRemote('/o', 'A', interface='a.b', destination='c.d')
+        sa = [m for k, m in rig.sent_messages() if k == 'msg'][0]['serial']
+        db = rig.conn.callRemote('/o', 'B', interface='a.b', destination='c.d')
+        sb = [m for k, m in rig.sent_messages() if k == 'msg'][0]['serial']
+        da.addBoth(results['A'].append)
+        da.addCallback(lambda _: call_on(1))
+        db.addBoth(results['B'].append)
+        ra = R.encode_variant(1, 2, 7001, {5: sa}, 's', [text('A', case['la'])])
+        rb = R.encode_variant(2, 2, 7002, {5: sb}, 's', [text('B', case['lb'])])
+        if case['glued']:
+            N.deliver(rig.conn, ra + rb)
+        else:
+            N.deliver(rig.conn, ra)
+            N.deliver(rig.conn, rb)
+        want = {'A': text('A', case['la']), 'B': text('B', case['lb']), 'C1': text('C1', case['lc'])}
+        if case['depth'] == 2:
+            want['C2'] = text('C2', case['lc'])
+        for k in sorted(want):
+            if results[k] != [want[k]]:
+                out.append(Disc('chain.%s' % ('not-completed' if not results[k] else 'wrong-completion'),
+                                'call %s completed with %r, its reply carried %r (replies to A and B %s, %d calls issued from '
+                                'reply callbacks and answered inside write())' % (
+                                    k, [repr(r)[:80] for r in results[k]], want[k][:40],
+                                    'in one read' if case['glued'] else 'in two reads', case['depth'])))
+        if rig.transport.disconnected:
+            out.append(Disc('chain.connection-dropped', repr(case)))
+    except Exception as e:
+        out.append(Disc(exc_key(e, 'chain.exception'), exc_detail(e)))
+    finally:
+        rig.close_rig()
+    return out
+
+
 SUBCHECKS = [
     Subcheck('random', run_history, classify_history, strategy=lambda tier: history(tier),
              n={'quick': 300, 'thorough': 3000}),
@@ -618,6 +693,11 @@ SUBCHECKS = [
     Subcheck('fd_replies', run_fd_replies, lambda c: (True, [c['kind'], 'early' if c['early'] else 'just_in_time']),
              enumerate=enum_fd_replies, shards={'quick': 1, 'thorough': 1},
              exhaustive_note='2-3 calls answered, in every order, by replies carrying one UNIX descriptor each (h, hs, ah)'),
+    Subcheck('chain', run_chain, lambda c: (True, ['glued' if c['glued'] else 'separate', 'depth%d' % c['depth']] +
+                                            (['reply_sizes_differ'] if c['la'] != c['lb'] else [])),
+             enumerate=enum_chain, shards={'quick': 2, 'thorough': 2},
+             exhaustive_note='reply sizes of A, B (4 each) and C (2) x replies to A and B in one read or two x 1-2 calls issued '
+                             'from reply callbacks and answered synchronously'),
     Subcheck('resend', run_resend, lambda c: (True, ['reply_' + c['reply']]), enumerate=enum_resend, shards={'quick': 1, 'thorough': 1},
              exhaustive_note='a timed-out call whose errback re-sends the same message object: second attempt answered in time '
                              '/ by an error / too late, with or without a second deadline, alone or next to other calls'),
